@@ -27,6 +27,16 @@ func vxHitStep(withOrigin bool, kinds []int) {
 	reqHdr := http.Header{"Cache-Control": []string{qs}}
 	req := vxGET(reqHdr)
 
+	// C09: a response that is fresh by more than a second and needs no validation must be
+	// served from the store (evaluated at the first clock reading, before the exchange)
+	c09Must := false
+	{
+		_, ageHi0 := vxSpecAge(x, vxTime(vxClockReading(0)))
+		sure := vxSureLifetime(x, x.cc.maxAge, x.cc.maxAgeStr)
+		comfortablyFresh := vxZLess(vxZAdd(ageHi0, vxZOf(vxSecond)), sure)
+		unq := vxAnd(x.cc.noCache, !x.cc.noCacheQualified)
+		c09Must = vxAnd(comfortablyFresh, vxAnd(vxAnd(!q.maxAge, !q.minFresh), vxAnd(!q.noCache, !unq)))
+	}
 	kind := -1
 	var sent *http.Response
 	var vo *vxOriginRespT
@@ -35,6 +45,7 @@ func vxHitStep(withOrigin bool, kinds []int) {
 		vxCover("hit/origin-contacted")
 		// C18: only-if-cached never touches the network
 		vxAssert(!q.onlyIfCached, "C18/origin-contacted-under-only-if-cached")
+		vxAssert(!c09Must, "C09/origin-contacted-for-fresh-response")
 		if !withOrigin {
 			vxStop()
 		}
@@ -148,6 +159,9 @@ func vxHitStep(withOrigin bool, kinds []int) {
 	_, hasINM := reqHdr["If-None-Match"]
 	_, hasIMS := reqHdr["If-Modified-Since"]
 	vxAssert(len(reqHdr) == 1 && !hasINM && !hasIMS && req.Method == "GET" && len(req.Header) == 1, "C02/client-request-modified")
+
+	// ---- C09 (see c09Must above)
+	vxAssert(vxImplies(c09Must, fromStore && calls == 0), "C09/fresh-response-not-served-from-store")
 
 	// ---- C13: stale-if-error window
 	if calls >= 1 && kind >= 2 {
